@@ -16,6 +16,7 @@ import Driver.Table
 import Driver.MMap
 import Driver.StdWrap
 import Driver.Ver
+import Driver.Ledger
 /-!
   momo_model: reads operation lines on stdin, prints one output line per operation.
   First line: `model <name> key=value …` selects the model. Lines starting with `#` are echoed.
@@ -23,6 +24,7 @@ import Driver.Ver
 open Driver
 
 def engines : List (String × Engine) := [
+  ("ledger", Driver.Ledger.engine),
   ("stdwrap", Driver.StdWrap.engine),
   ("ver", Driver.Ver.engine),
   ("probe", Driver.Probe.engine),
